@@ -97,6 +97,14 @@ class View:
         return v.value if isinstance(v, MaybeUnbound) else v
 
 
+class _PyDictLit:
+    """dict built from a concrete sequence of (key, value) pairs (a comprehension over a python-level sequence): becomes a typed
+    container when it is assigned to a local the contract declares"""
+
+    def __init__(self, pairs):
+        self.pairs = pairs
+
+
 class Unbindable(Exception):
     """a contract can no longer be bound to the code (renamed variable / parameter) -> undecided"""
 
@@ -999,6 +1007,13 @@ class Run:
     def resolve_untyped(self, target, val):
         """an empty literal / defaultdict(...) gets its element types from the contract's typed locals"""
         from .lib import Untyped
+        if isinstance(val, _PyDictLit):
+            d = self.resolve_untyped(target, _EmptyDict())
+            if isinstance(d, _EmptyDict):
+                raise Unsupported('dict comprehension assigned to %s needs a typed local in the contract' % ast.unparse(target))
+            for k, v in val.pairs:
+                self.setitem(d, k, v, getattr(self, 'cur_line', 0))
+            return d
         if not isinstance(val, (_EmptyList, _EmptyDict, Untyped)):
             return val
         try:
